@@ -150,6 +150,11 @@ func flytsaModelMapsAll(m map[string]any) func(yield func(string, any) bool) {
 	}
 }
 
+// (time.Duration).Nanoseconds: the duration itself as an integer.
+func flytsaModelIdentity(x int64) int64 {
+	return x
+}
+
 // (*sync.Once).Do as seen by a single analysed call: the function runs, in place.
 func flytsaModelOnceDo(o any, f func()) {
 	f()
